@@ -212,7 +212,16 @@ def rule_perfectconst(ctx):
         for x in eqs:
             sides.append({_key_part(x.a[1]), _key_part(x.a[2])})
         good = {("R", 0), ("E", 0)} in sides and {("R", 1), ("E", 1)} in sides and len(eqs) == 2
-    yield ob(R, f, "key.weighted_score:same-key", good, "the first decision returns 1.0 exactly when key number and mode both agree")
+    why = "the first decision returns 1.0 exactly when key number and mode both agree"
+    if not good:
+        from .c04 import key_decision_table
+
+        tab = key_decision_table(ctx)
+        if tab is None:
+            raise AnalysisError(R, "weighted_score: the first decision is not `same key and same mode -> 1.0` and the decision table cannot be evaluated")
+        good = all((v == 1.0) == (rk == ek and rm == em) for (rk, rm, ek, em), v in tab.items())
+        why = "evaluated on all %d key pairs, the score is 1.0 exactly when key number and mode both agree" % len(tab)
+    yield ob(R, f, "key.weighted_score:same-key", good, why)
     f = ctx.program.func("melody.voicing_recall", R)
     s = ctx.S.get(f.qual)
     one = [r for r in s.returns if is_lit(r.term) and lit(r.term) == 1]
@@ -321,7 +330,17 @@ def rule_melodytwin(ctx):
     yield ob(R, f, "melody.to_cent_voicing:same-base", base, "both sides are converted to cents with the same base_frequency")
     # the un-resampled estimate goes onto the reference's (padded) time base
     last = [c for c in rs if "est_time" in tm.params_of(c.args[0]) and len(c.args) >= 4 and "ref_time" in tm.params_of(c.args[3])]
-    yield ob(R, f, "melody.to_cent_voicing:onto-reference-timebase", len(last) == 1 and (not tref or last[0].args[3] is tref[0] or "hop" not in tm.params_of(last[0].args[3])), "without hop the estimate is resampled onto the reference times")
+
+    def _no_hop_alt(t):
+        """the value of a target-time-base argument on the path without a hop: `X if hop is None else Y` -> X"""
+        if t.op == "ite":
+            c = t.a[0]
+            if c.op == "cmp" and c.a[0] in ("is", "==") and any(tm.is_const(z, None) for z in c.a[1:]) and any(z.op == "param" and z.a[0] == "hop" for z in c.a[1:]):
+                return _no_hop_alt(t.a[1])
+        return t
+
+    tgt = _no_hop_alt(last[0].args[3]) if len(last) == 1 else None
+    yield ob(R, f, "melody.to_cent_voicing:onto-reference-timebase", len(last) == 1 and (not tref or tgt is tref[0] or "hop" not in tm.params_of(tgt)), "without hop the estimate is resampled onto the reference times")
 
 
 def rule_shared(ctx):
